@@ -17,6 +17,7 @@ class Hist1Prop:
     FIELDS = None          # snapshot keys compared between model and implementation (None = all)
     RTOL = None            # None = bit-exact
     ASSUMPTIONS: list = []
+    UNOBSERVED = True      # run every 1-D history a second time without reading intermediate states
 
     def run_impl(self, case):
         if case.get("kind") == "histn":
@@ -24,6 +25,9 @@ class Hist1Prop:
             outs, log = implnd.run(case)
         else:
             outs, log = impl1.run(case)
+            if self.UNOBSERVED and len(case["ops"]) >= 2 and all(isinstance(o, dict) for o in outs):
+                # second run without intermediate reads: the oracles see its final state too (runner.oracle_of)
+                return {"outs": outs, "log": log, "unobserved_outs": outs[:-1] + [impl1.run_unobserved(case)]}
         return {"outs": outs, "log": log}
 
     def model_case(self, case, io):
